@@ -45,6 +45,9 @@ type SessState struct {
 	AllocUE    map[uint16]string
 	// PFD table snapshot at the time each PDR was parsed (application IDs resolve at parse time)
 	PDRApp map[uint16][]string
+	// UP4SessQER: the choices of session-wide QER (0 = none) that explain every terminations entry of the session
+	// observed so far; narrowed by every image check, forgotten when a request touches the QERs or the QER lists
+	UP4SessQER map[uint32]bool
 }
 
 // Obs is what one op produced.
@@ -439,6 +442,18 @@ func hexDecode(s string) []byte {
 func (r *Runner) applyMod(s *SessState, p *PeerState, op model.Op) {
 	if op.NewCP {
 		s.CPSEID = op.NewCPSEID
+	}
+	// which QER is session-wide may only be reconsidered when the QERs or the PDRs' QER lists change
+	relabel := len(op.QERs)+len(op.UpdQERs)+len(op.RemQERs)+len(op.PDRs)+len(op.RemPDRs) > 0
+	for _, u := range op.UpdPDRs {
+		for i := range s.PDRs {
+			if s.PDRs[i].ID == u.ID && fmt.Sprint(s.PDRs[i].QERs) != fmt.Sprint(u.QERs) {
+				relabel = true
+			}
+		}
+	}
+	if relabel {
+		s.UP4SessQER = nil
 	}
 	s.PDRs = append(s.PDRs, op.PDRs...)
 	s.FARs = append(s.FARs, op.FARs...)
